@@ -227,8 +227,18 @@ def binop(it, op, a, b, node):
     raise _CE(f"interval binop {op}")
 
 
+_STR_METHODS = ("upper", "lower", "strip", "lstrip", "rstrip", "replace", "zfill", "casefold", "title", "translate", "removeprefix", "removesuffix")
+
+
 def _symstr(v):
-    return isinstance(v, Sym) and v.kind in ("format", "concat", "str", "upper", "zfill", "resub", "replace", "slice")
+    """Opaque terms that are known to be strings."""
+    if not isinstance(v, Sym):
+        return False
+    if v.kind in ("format", "concat", "str", "upper", "zfill", "resub", "replace", "slice"):
+        return True
+    if v.kind == "method" and len(v.args) > 1 and v.args[1] in _STR_METHODS:
+        return True
+    return v.kind == "call" and v.args and v.args[0] in ("unicodedata.normalize", "schwifty.bban.compute_national_checksum")
 
 
 def _is_path(v):
@@ -805,8 +815,11 @@ def subscript(it, base, idx, node):
     raise _CE(f"subscript of {base!r}")
 
 
-def it_symbolic_key(it, table, key, node):
-    """dict lookup with a symbolic string key: fork over the keys (and KeyError)."""
+_RAISE_KEYERROR = object()
+
+
+def it_symbolic_key(it, table, key, node, default=_RAISE_KEYERROR):
+    """dict lookup with a symbolic string key: fork over the keys, and the miss (KeyError, or ``default`` for dict.get)."""
     keys = [k for k in table if isinstance(k, str)]
     known = None
     th = it.theory
@@ -815,6 +828,8 @@ def it_symbolic_key(it, table, key, node):
     if known is not None:
         if known in table:
             return table[known]
+        if default is not _RAISE_KEYERROR:
+            return default
         it.may_raise("KeyError", node, f"key {known!r}", certain=True, witness=known)
     if hasattr(th, "register_keyset"):
         th.register_keyset(id(table), keys)
@@ -844,6 +859,8 @@ def it_symbolic_key(it, table, key, node):
         return table[k]
     th.assume(miss, False)
     it.assumptions.append((miss, False))
+    if default is not _RAISE_KEYERROR:
+        return default
     it.may_raise("KeyError", node, f"key {key!r} not in table", certain=True, witness=key)
 
 
